@@ -75,6 +75,9 @@ private:
 	asio::ip::tcp::socket m_server_connection;
 	// true while there is an outstanding write operation to the server
 	bool m_writing_to_server;
+	// true while the name of the server is being looked up. Requests that
+	// arrive in the meantime are queued behind the first one
+	bool m_resolving = false;
 
 	// receive buffer for requests from the client. i.e. client -> proxy (us) -> server
 	char m_client_in_buffer[65536];
